@@ -771,6 +771,7 @@ protected:
 
       std::string headerSection = dataStr.substr(0, headerEnd);
       std::size_t contentLength = 0;
+      bool haveContentLength = false;
       bool isChunked = false;
 
       // Parse headers
@@ -800,10 +801,23 @@ protected:
 
           if (key == "content-length")
           {
-            try
+            // Content-Length = 1*DIGIT (RFC 9110 §8.6). std::stoull is far too lenient
+            // for a framing field: it skips whitespace, accepts a sign and stops at
+            // trailing junk ("12abc" -> 12, "+5" -> 5, "1 2" -> 1), and a repeated
+            // field silently let the last value win. An invalid or conflicting length
+            // is rejected (RFC 9112 §6.3 rule 5) instead of guessing where the message
+            // ends. The per-digit cap check also rules out overflow.
+            std::size_t parsedLength = 0;
+            bool validLength = !value.empty();
+            for (std::size_t vi = 0; vi < value.size() && validLength; ++vi)
             {
-              contentLength = std::stoull(value);
-              if (contentLength > SessionInfo::MAX_BODY_SIZE)
+              if (value[vi] < '0' || value[vi] > '9')
+              {
+                validLength = false;
+                break;
+              }
+              parsedLength = parsedLength * 10 + static_cast<std::size_t>(value[vi] - '0');
+              if (parsedLength > SessionInfo::MAX_BODY_SIZE)
               {
                 iora::core::Logger::error("HttpServer: Body size limit exceeded for session " +
                                           std::to_string(sid) + " - closing connection");
@@ -812,15 +826,17 @@ protected:
                 return;
               }
             }
-            catch (...)
+            if (!validLength || (haveContentLength && parsedLength != contentLength))
             {
-              iora::core::Logger::error("HttpServer: Invalid "
+              iora::core::Logger::error("HttpServer: Invalid or conflicting "
                                         "content-length header for session " +
                                         std::to_string(sid) + " - closing connection");
               // No lock held; guarded close (was unguarded raw _transport->close).
               closeSession(sid);
               return;
             }
+            haveContentLength = true;
+            contentLength = parsedLength;
           }
           else if (key == "transfer-encoding")
           {
